@@ -526,7 +526,24 @@ X4_KNOWN_HELPERS = {
     "_parse_marker_atom", "_parse_marker", "_parse_full_marker", "_parse_version_many", "_parse_specifier",
     "_parse_extras_list", "_parse_extras", "_parse_requirement_marker", "_parse_requirement_details", "_parse_requirement",
     "_parse_keywords", "_parse_project_urls", "_parse_local_version", "_parse_project_urls", "_get_payload",
+    "Specifier._get_operator",          # evaluated at translation time (PARTIAL_EVAL_GUARDS)
 }
+
+
+def _inlinable_method(owner, attr, globs, caller_name):
+    """N5 for `self._m(…)`: a private method of the caller's class that no class of the module overrides"""
+    if owner is None or not attr.startswith("_") or attr.startswith("__") or attr == caller_name:
+        return None
+    f = inspect.getattr_static(owner, attr, None)
+    if not inspect.isfunction(f) or f.__globals__ is not globs:
+        return None
+    qual = f"{owner.__name__}.{attr}"
+    if any(qual == sel[2] or sel[2].endswith("." + attr) for sel in SELECTED) or qual in X4_KNOWN_HELPERS:
+        return None
+    for c in globs.values():
+        if inspect.isclass(c) and c is not owner and issubclass(c, owner) and attr in c.__dict__:
+            return None
+    return _helper_node(f, attr)
 
 
 def _inlinable_helper(name, globs, caller_name):
@@ -537,6 +554,10 @@ def _inlinable_helper(name, globs, caller_name):
         return None
     if any(name == sel[2] for sel in SELECTED):
         return None
+    return _helper_node(f, name)
+
+
+def _helper_node(f, name):
     try:
         node = ast.parse(textwrap.dedent(inspect.getsource(f))).body[0]
     except (OSError, SyntaxError, TypeError):
@@ -578,7 +599,7 @@ class _Renamer(ast.NodeTransformer):
         return ast.copy_location(copy.deepcopy(r), node)
 
 
-def _inline_helpers(fn, globs, counter=None, depth=0):
+def _inline_helpers(fn, globs, counter=None, depth=0, owner=None):
     """splice unknown private helpers into the statements of `fn` (see N5)"""
     import copy
     counter = counter if counter is not None else [0]
@@ -595,30 +616,39 @@ def _inline_helpers(fn, globs, counter=None, depth=0):
             return st.value, lambda e: ast.copy_location(ast.Expr(value=e), st)
         return None, None
 
-    caller_locals = {n for s in _walk_scope(fn.body) for n in _targets_of(s)} | {a.arg for a in fn.args.args + fn.args.kwonlyargs}
+    assigned_in_caller = {n for s in _walk_scope(fn.body) for n in _targets_of(s)}
+    caller_locals = assigned_in_caller | {a.arg for a in fn.args.args + fn.args.kwonlyargs}
 
     def splice(st):
         call, rebuild = call_of(st)
-        if call is None or not isinstance(call.func, ast.Name) or call.func.id in caller_locals or depth > 2:
+        if call is None or depth > 2:
             return None
         if any(isinstance(a, ast.Starred) for a in call.args) or any(k.arg is None for k in call.keywords):
             return None
-        h = _inlinable_helper(call.func.id, globs, fn.name)
+        pos_args = list(call.args)
+        if isinstance(call.func, ast.Name) and call.func.id not in caller_locals:
+            h = _inlinable_helper(call.func.id, globs, fn.name)
+        elif isinstance(call.func, ast.Attribute) and isinstance(call.func.value, ast.Name) and fn.args.args \
+                and call.func.value.id == fn.args.args[0].arg and call.func.value.id not in assigned_in_caller:
+            h = _inlinable_method(owner, call.func.attr, globs, fn.name)          # `self._m(…)`
+            pos_args = [call.func.value] + pos_args
+        else:
+            return None
         if h is None:
             return None
         params = [a.arg for a in h.args.args]
         defaults = dict(zip(params[len(params) - len(h.args.defaults):], h.args.defaults))
         bound = {}
-        if len(call.args) > len(params):
+        if len(pos_args) > len(params):
             return None
-        for p_, a in zip(params, call.args):
+        for p_, a in zip(params, pos_args):
             bound[p_] = a
         for k in call.keywords:
             if k.arg not in params or k.arg in bound:
                 return None
             bound[k.arg] = k.value
         # keyword arguments are evaluated after the positional ones, in source order: keep that order
-        order = [p_ for p_, _ in zip(params, call.args)] + [k.arg for k in call.keywords]
+        order = [p_ for p_, _ in zip(params, pos_args)] + [k.arg for k in call.keywords]
         for p_ in params:
             if p_ not in bound:
                 if p_ not in defaults or not isinstance(defaults[p_], ast.Constant):
@@ -667,13 +697,13 @@ def _inline_helpers(fn, globs, counter=None, depth=0):
     before = counter[0]
     fn.body = walk_block(fn.body)
     if counter[0] != before and depth < 2:
-        _inline_helpers(fn, globs, counter, depth + 1)          # helpers of helpers
+        _inline_helpers(fn, globs, counter, depth + 1, owner)          # helpers of helpers
     return fn
 
 
-def x4_normalise(fn, globs=None):
+def x4_normalise(fn, globs=None, owner=None):
     if globs is not None:
-        fn = _inline_helpers(fn, globs)
+        fn = _inline_helpers(fn, globs, owner=owner)
     fn = _X4Normaliser(fn).visit(fn)
     ast.fix_missing_locations(fn)
     return fn
@@ -687,7 +717,9 @@ class Fn:
         self.node = tree.body[0]
         if not isinstance(self.node, ast.FunctionDef):
             raise Unsupported("not a plain function definition")
-        self.node = x4_normalise(self.node, pyfunc.__globals__)          # x4: behaviour-preserving spellings -> one canonical AST
+        _qn = pyfunc.__qualname__.split(".")
+        _owner = pyfunc.__globals__.get(_qn[0]) if len(_qn) == 2 and inspect.isclass(pyfunc.__globals__.get(_qn[0])) else None
+        self.node = x4_normalise(self.node, pyfunc.__globals__, _owner)   # x4: behaviour-preserving spellings -> one canonical AST
         self.globals = pyfunc.__globals__
         self.tmp = 0
         self.lines = []
